@@ -1,7 +1,7 @@
 """C19 Transactional storage shows base plus pending writes, then commits them (DESIGN.md §4.C19)."""
 from vf.core import Suite
 from vf.gen import pick_weighted
-from props.b10util import parse_out, show_out, coq_ops, coq_universe
+from props.b10util import parse_expanded as parse_out, show_out, coq_ops, coq_universe, AbsStore
 
 ID = "C19"
 THEOREMS_FULL = ["C19_base_untouched", "C19_commit_abs", "C19_view_partial", "C19_commit_partial",
@@ -200,6 +200,16 @@ class Main(Suite):
     def spec_expr(self, c):
         return "(c19_spec_run %s %s %s)%%N" % (coq_universe(c["objs"]), coq_ops(c["init"]), coq_ops(c["ops"]))
 
+    @staticmethod
+    def spec(c):
+        """the abstract transaction (python twin of Spec/AStore.v spec_run, cross-checked in extra()):
+        reads are queries on the view, the base does not move, Commit makes the base equal to the view"""
+        base = AbsStore(c["objs"])
+        for o in c["init"]:
+            base.step(o)
+        view = base.copy()
+        return [[view.step(o) for o in c["ops"]], base.snapshot(), ["ok"], view.snapshot()]
+
     def nontrivial(self, c):
         return any(o[0] in WRITES for o in c["ops"])
 
@@ -226,21 +236,17 @@ class Main(Suite):
     def oracle(self, ctx, cases, impl, model):
         """the property on the implementation: every answer of the transaction, the base before Commit and the
         base after Commit equal those of the abstract transaction (base + view)"""
-        specs = ctx.coq_eval(self.coq_imports, [self.spec_expr(c) for c in cases], chunk=self.coq_chunk)
         fails = {}
         self._div = {}
-        for c, s in zip(cases, specs):
+        for c in cases:
             r = impl.get(c["id"])
-            if r is None or s is None:
-                if r is None:
-                    fails[c["id"]] = "no reply from the implementation"
-                else:
-                    ctx.notes.append("spec evaluation failed for case %s" % c["id"])
+            if r is None:
+                fails[c["id"]] = "no reply from the implementation"
                 continue
             if r.get("panic"):
                 continue
             try:
-                got, want = parse_out(r["out"]), parse_out(s)
+                got, want = parse_out(r["out"]), self.spec(c)
             except Exception as e:
                 fails[c["id"]] = "unparsable observable: %s" % e
                 continue
@@ -294,7 +300,15 @@ class Main(Suite):
         for c in cases:
             for o in c["ops"]:
                 kinds[o[0]] = kinds.get(o[0], 0) + 1
-        return {"calls_by_kind": kinds, "bases": {b: sum(1 for c in cases if c["base"] == b) for _, b in BASES}}
+        sample = cases[:12] + cases[12::max(1, len(cases) // 40)]
+        outs = ctx.coq_eval(self.coq_imports, [self.spec_expr(c) for c in sample], chunk=self.coq_chunk)
+        bad = 0
+        for c, o in zip(sample, outs):
+            if o is None or parse_out(o) != self.spec(c):
+                bad += 1
+                ctx.notes.append("spec_mismatch: python abstract transaction vs Spec/AStore.v on case %s" % c["id"])
+        return {"calls_by_kind": kinds, "bases": {b: sum(1 for c in cases if c["base"] == b) for _, b in BASES},
+                "spec_crosscheck_cases": len(sample), "spec_mismatches": bad}
 
 
 SUITES = [Main()]
